@@ -295,7 +295,7 @@ impl Profile {
                     vec![Op::Batch(BatchSpec { name: "n".into(), deps: vec![], ctrl: CtrlData::WriteC, times: 1, multi: false, fetch_data: false, inner: vec![st(StaticData::ReadA)] })],
                     vec![Op::Batch(BatchSpec { name: "n".into(), deps: vec![], ctrl: CtrlData::Unit, times: 1, multi: true, fetch_data: false, inner: vec![st(StaticData::WriteC)] })],
                 ];
-                for ctrl in [CtrlData::Unit, CtrlData::ReadA, CtrlData::WriteC, CtrlData::OptReadA] {
+                for ctrl in [CtrlData::Unit, CtrlData::ReadA, CtrlData::WriteC, CtrlData::OptReadA, CtrlData::DerOptReadAWriteC] {
                     for inner in &inners {
                         out.push((Op::Batch(BatchSpec { name: name.clone(), deps: vec![], ctrl, times: 1, multi: false, fetch_data: false, inner: inner.clone() }), false));
                     }
@@ -833,6 +833,23 @@ pub fn families(nmax: usize) -> Vec<(String, Vec<Op>)> {
                 v.push(s("q1".into(), &[], &[5], 1, vec![]));
                 v.push(s("joiner".into(), &[], &[5, x as u8], 2, vec![]));
                 out.push((format!("joiner-behind-barrier(front {} groups, light group at index {}, shares resource {} with the front)", f, g, x), v));
+            }
+        }
+    }
+    // a batch whose inner plan has a system that JOINS an existing inner group (one conflict + balance) and brings a
+    // resource nobody else inside names; an outer system uses that resource (before / after the batch)
+    for (jr, jw) in [(vec![1u8], vec![2u8]), (vec![], vec![1u8, 2]), (vec![1u8, 2], vec![])] {
+        for outer_write in [true, false] {
+            if !outer_write && jw.is_empty() {
+                continue;
+            }
+            let inner = vec![s("h".into(), &[], &[3], 5, vec![]), s("l".into(), &[], &[1], 1, vec![]), s("j".into(), &jr, &jw, 2, vec![])];
+            let inner_dep = vec![s("h".into(), &[], &[3], 5, vec![]), s("l".into(), &[], &[], 1, vec![]), s("j".into(), &[], &[2], 2, vec!["l".into()])];
+            let o = if outer_write { s("o".into(), &[], &[2], 3, vec![]) } else { s("o".into(), &[2], &[], 3, vec![]) };
+            for (what, inn) in [("through a shared resource", inner), ("through a dependency only", inner_dep)] {
+                let bt = Op::Batch(BatchSpec { name: "b".into(), deps: vec![], ctrl: CtrlData::Unit, times: 1, multi: false, fetch_data: false, inner: inn });
+                out.push((format!("batch-inner-joiner ({}; joiner reads {:?} writes {:?}); outer {} of C", what, jr, jw, if outer_write { "writer" } else { "reader" }), vec![bt.clone(), o.clone()]));
+                out.push((format!("outer {} of C; batch-inner-joiner ({}; joiner reads {:?} writes {:?})", if outer_write { "writer" } else { "reader" }, what, jr, jw), vec![o.clone(), bt]));
             }
         }
     }
